@@ -2,7 +2,7 @@
 from .. import core
 from . import c15
 
-ACTS = {'Construct': 2, 'GetPos': 1, 'GetDisp': 2, 'CumDisp': 1, 'Slice': 1, 'Filter': 1, 'Split': 1, 'ReadOnly': 1,
+ACTS = {'Construct': 2, 'ConstructLoop': 2, 'GetPos': 1, 'GetDisp': 2, 'CumDisp': 1, 'Slice': 1, 'Filter': 1, 'Split': 1, 'ReadOnly': 1,
         'Drift': 4, 'ApplyDrift': 5, 'GaugePair': 2}
 JUDGED = {'Drift', 'ApplyDrift', 'Gauge'}
 
